@@ -67,11 +67,17 @@ DropFail(t) ==
     /\ th' = [th EXCEPT ![t].st = "lin"]
     /\ UNCHANGED <<pool, reg, aclosed, anframe, l, cur, ncall, tagOf>>
 
+\* Concurrent managed sends each hold a borrowed id from the moment they start until they are registered or give it
+\* back: a further send may find the pool empty although fewer than N requests are registered yet. C09 counts those
+\* as sends in progress, not as a wrong refusal: the refusal is allowed when registered + other managed sends that have
+\* been called and have not taken effect reach N.
+PendingManaged(t) == Cardinality({u \in ThreadNames \ {t} : th[u].st = "called" /\ th[u].e.op = "M"})
+
 \* the operation of thread t takes effect now
 Lin(t) ==
     /\ th[t].st = "called"
     /\ LET e == th[t].e IN
-       /\ CASE e.op = "M" -> ASendManaged
+       /\ CASE e.op = "M" -> ASendManaged \/ (Cardinality(RegIds) + PendingManaged(t) >= N /\ Refuse)
             [] e.op = "E" -> e.k \in AllIds /\ ASendExplicit(e.k)
             [] e.op = "D" -> e.k \in AllIds /\ ADeliverM(e.k, e.last, e.mark)
             [] e.op = "C" -> AClose
